@@ -50,8 +50,8 @@ import (
 	"github.com/sassoftware/relic/v8/verifapi"
 
 	"verif/harness/internal/certs"
-	"verif/harness/internal/fakep11"
 	"verif/harness/internal/fakeamqp"
+	"verif/harness/internal/fakep11"
 	"verif/harness/internal/faketoken"
 	"verif/harness/internal/pipelinex"
 	"verif/harness/internal/res"
@@ -218,17 +218,17 @@ func buildWorld(dir, auditKind, amqp string, cacheSeconds int, rateLimit float64
 		sb.WriteString("  alias1:\n    alias: k1\n")
 		sb.WriteString("  hidden:\n    token: t1\n    label: k1\n    x509certificate: /repo/functest/testkeys/rsa2048.crt\n    roles: [r1]\n    hide: true\n")
 	} else {
-	fmt.Fprintf(&sb, "tokens:\n  t1:\n    type: %s\n", faketoken.Type)
-	if rateLimit > 0 {
-		fmt.Fprintf(&sb, "    ratelimit: %g\n    rateburst: 4\n", rateLimit)
-	}
-	fmt.Fprintf(&sb, "  t2:\n    type: %s\n", faketoken.Type)
-	sb.WriteString("keys:\n")
-	sb.WriteString("  k1:\n    token: t1\n    keyfile: /repo/functest/testkeys/rsa2048.key\n    pgpcertificate: /repo/functest/testkeys/rsa2048.pgp\n    x509certificate: /repo/functest/testkeys/rsa2048.crt\n    roles: [r1]\n")
-	fmt.Fprintf(&sb, "  k2:\n    token: t2\n    keyfile: %s\n    x509certificate: %s\n    roles: [r1]\n", k2key, k2crt)
-	fmt.Fprintf(&sb, "  k3:\n    token: t2\n    keyfile: %s\n    x509certificate: %s\n    roles: [r1]\n", k3key, k3crt)
-	sb.WriteString("  alias1:\n    alias: k1\n")
-	sb.WriteString("  hidden:\n    token: t1\n    keyfile: /repo/functest/testkeys/rsa2048.key\n    x509certificate: /repo/functest/testkeys/rsa2048.crt\n    roles: [r1]\n    hide: true\n")
+		fmt.Fprintf(&sb, "tokens:\n  t1:\n    type: %s\n", faketoken.Type)
+		if rateLimit > 0 {
+			fmt.Fprintf(&sb, "    ratelimit: %g\n    rateburst: 4\n", rateLimit)
+		}
+		fmt.Fprintf(&sb, "  t2:\n    type: %s\n", faketoken.Type)
+		sb.WriteString("keys:\n")
+		sb.WriteString("  k1:\n    token: t1\n    keyfile: /repo/functest/testkeys/rsa2048.key\n    pgpcertificate: /repo/functest/testkeys/rsa2048.pgp\n    x509certificate: /repo/functest/testkeys/rsa2048.crt\n    roles: [r1]\n")
+		fmt.Fprintf(&sb, "  k2:\n    token: t2\n    keyfile: %s\n    x509certificate: %s\n    roles: [r1]\n", k2key, k2crt)
+		fmt.Fprintf(&sb, "  k3:\n    token: t2\n    keyfile: %s\n    x509certificate: %s\n    roles: [r1]\n", k3key, k3crt)
+		sb.WriteString("  alias1:\n    alias: k1\n")
+		sb.WriteString("  hidden:\n    token: t1\n    keyfile: /repo/functest/testkeys/rsa2048.key\n    x509certificate: /repo/functest/testkeys/rsa2048.crt\n    roles: [r1]\n    hide: true\n")
 	}
 	switch auditKind {
 	case "ok":
@@ -301,6 +301,12 @@ func (w *world) randomReq(rnd *rand.Rand, n int) reqSpec {
 	} else if k.hasPgp {
 		types = append(types, "pgp")
 	}
+	if onlyType != "" {
+		if onlyType == "pgp" && !k.hasPgp {
+			return w.randomReq(rnd, n) // another key
+		}
+		types = []string{onlyType}
+	}
 	st := types[rnd.Intn(len(types))]
 	dg := []string{"sha256", "sha384", "sha512"}[rnd.Intn(3)]
 	if st == "apk" && dg == "sha384" {
@@ -330,6 +336,7 @@ func shortRid(s string) string {
 
 var clientMu sync.Mutex
 var rawMode bool
+var onlyType string
 
 type outcome struct {
 	status   int
@@ -557,12 +564,15 @@ func Main(args []string) {
 	shutdown := fs.Bool("shutdown", false, "run through daemon.Daemon and Close() while requests are in flight")
 	tokenDelay := fs.Duration("tokendelay", 0, "delay each token signature by this much")
 	workdir := fs.String("dir", "", "working directory (default: fresh temp dir)")
+	only := fs.String("type", "", "only this signature type")
+	hold := fs.String("hold", "", "E:M - every E-th request is held between its signature and its audit record / response until M other signatures were made (or 3 s passed): the interleaving A.Sign, (B.Recv .. B.Respond)*, A.Respond of SignServer.tla")
 	mixOther := fs.Bool("mix", false, "mix in list_keys/keys/health requests")
 	raw := fs.Bool("raw", false, "only pe-coff with the default transform: no client-side use of relic's flag machinery")
 	p11 := fs.Bool("p11", false, "PKCS#11 tokens behind the wire module: real worker processes")
 	faults := fs.Bool("faults", false, "(p11) a fatal token error after a third of the requests, kill -9 of a worker after two thirds")
 	fs.Parse(args)
 	p11Mode = *p11
+	onlyType = *only
 	rawMode = *raw
 	zerolog.SetGlobalLevel(zerolog.Disabled)
 	r := res.New()
@@ -647,6 +657,35 @@ func Main(args []string) {
 	reqs := make([]reqSpec, *n)
 	for i := range reqs {
 		reqs[i] = w.randomReq(rnd, i)
+	}
+	var heldCount, heldReleasedByOthers int64
+	if *hold != "" {
+		var every, others int64
+		fmt.Sscanf(*hold, "%d:%d", &every, &others)
+		var signed int64
+		verifhook.SetGate(func(ev string, kv []interface{}) {
+			if ev != "SignDone" {
+				return
+			}
+			mine := atomic.AddInt64(&signed, 1)
+			var num int64
+			if len(kv) >= 2 {
+				fmt.Sscanf(strings.TrimPrefix(fmt.Sprint(kv[1]), "req-"), "%d", &num)
+			}
+			if num%every != 0 {
+				return
+			}
+			atomic.AddInt64(&heldCount, 1)
+			deadline := time.Now().Add(3 * time.Second)
+			for atomic.LoadInt64(&signed) < mine+others {
+				if time.Now().After(deadline) {
+					return
+				}
+				time.Sleep(time.Millisecond)
+			}
+			atomic.AddInt64(&heldReleasedByOthers, 1)
+		})
+		defer verifhook.SetGate(nil)
 	}
 	var next int64 = -1
 	var wg sync.WaitGroup
@@ -913,6 +952,8 @@ func Main(args []string) {
 	r.Extra["failed"] = failCount
 	r.Extra["truncated_refused"] = truncatedRefused
 	r.Extra["verified"] = verifiedCount
+	r.Extra["held"] = heldCount
+	r.Extra["held_released_by_others"] = heldReleasedByOthers
 	r.Extra["events"] = len(trace)
 	r.Extra["behaviours_read"] = 1
 	for i := int64(0); i < okCount+failCount; i++ {
